@@ -1,5 +1,5 @@
 (** C13 — the fee denomination alternates, at most once per week. *)
-From FM Require Import History.
+From FM Require Import History CallSeq.
 
 (** Whatever operation (of any kind, by anybody) changes the fee item, it is the public cycle
     message without attached coins, strictly more than 604800 s of block time after the
@@ -34,6 +34,14 @@ Theorem C13_switches_spaced_to_the_nanosecond : forall ops w t0,
   spaced_ns t0 (switch_times_ns w ops).
 Proof. exact switches_spaced_ns. Qed.
 Print Assumptions C13_switches_spaced_to_the_nanosecond.
+
+(** Under every interleaving (proofs/CallSeq.v): along any sequence of successful marketplace
+    calls none of which is the cycle message — whoever sends them, in any order or nesting — the
+    fee denomination and its cooldown origin stay exactly as they are. *)
+Theorem C13_only_the_cycle_message_switches : forall s s',
+  mreach_but (fun m => m = FeeCycle) s s' -> fee s' = fee s.
+Proof. exact fee_changes_only_by_cycle. Qed.
+Print Assumptions C13_only_the_cycle_message_switches.
 
 (** Before (and at) the week mark every cycle attempt is refused without effect ... *)
 Theorem C13_cycle_refused_within_week : forall w a fs fail,
